@@ -105,32 +105,17 @@ theorem binop_accepts_valid (sc : Bool) (op : BinOp) (l r : Operand) (t : Ty)
   have h1 := C05.binop_type_correct sc op l r t ol or' h
   exact ⟨h1, binop_sound sc op l r t ol or' h1⟩
 
-/-- **Unary operators**, full strength: whenever `unaryexpr`/`mkunaryexpr`/`mkincdecexpr` accept,
-6.5.3.2p1-2, 6.5.3.3p1, 6.5.3.4p1, 6.5.2.4p1/6.5.3.1p1 hold. -/
-def unary_accept_sound_full : Prop :=
-  ∀ (sc : Bool) (op : UnOp) (e o : Operand), OperandOk e →
-    ((op = .preinc ∨ op = .predec ∨ op = .postinc ∨ op = .postdec) → e.ty.isArith = true ∨ e.ty.isPtr = true) →
-    unaryOp sc op e = some o → Constraints.unop op e = true
-
-/-- `struct S g(void); … &g()`: the address of a structure *rvalue* is accepted (`mkunaryexpr`
-exempts every struct/union operand from the lvalue test because member access on rvalues is built
-with it).  Reproduced on the binary: `struct S {int a;}; struct S g(void); void f(void){ &g(); }`
-exits 0 (gcc, clang: "lvalue required"). -/
-theorem unary_accept_sound_counterexample : ¬ unary_accept_sound_full := by
-  intro h
-  have := h true .addr { ty := .struct 0 } (rvalue (.ptr {} (.struct 0))) trivial (by simp) rfl
-  exact absurd this (by decide)
-
-/-- Every unary operator except `&` applied to a structure/union rvalue.  For `++`/`--` the model
-leaves "real or pointer type" to the code generator (`qbe.c:funcexpr` "not a scalar"), hence the
-hypothesis `har`. -/
-theorem unary_accept_sound_partial (sc : Bool) (op : UnOp) (e o : Operand) (ok : OperandOk e)
-    (hsu : op = .addr → (designatorType e).isStructUnion = false)
+/-- **Unary operators.**  Whenever `unaryexpr`/`mkunaryexpr`/`mkincdecexpr` accept, 6.5.3.2p1-2,
+6.5.3.3p1, 6.5.3.4p1 and 6.5.2.4p1/6.5.3.1p1 hold.  For `++`/`--` the typing code leaves "real or
+pointer type" to the code generator (`qbe.c:funcexpr`, "not a scalar"), hence the hypothesis `har`.
+(Full strength since fixes 93895c0 and c22baea: `&g()` on a structure rvalue used to be accepted.) -/
+theorem unary_accept_sound (sc : Bool) (op : UnOp) (e o : Operand) (ok : OperandOk e)
     (har : (op = .preinc ∨ op = .predec ∨ op = .postinc ∨ op = .postdec) →
       e.ty.isArith = true ∨ e.ty.isPtr = true)
     (h : unaryOp sc op e = some o) : Constraints.unop op e = true :=
-  unop_sound sc op e o ok hsu har h
+  unop_sound sc op e o ok har h
 
+example : unaryOp true .addr { ty := .struct 0 } = none := by decide   -- fix c22baea
 example : (unaryOp true .postinc { ty := .ptr {} Ty.int, lvalue := true }).map (·.ty) = some (.ptr {} Ty.int) := by decide
 example : unaryOp true .postinc { ty := .ptr {} .void, lvalue := true } = none := by decide   -- fix 93895c0
 example : unaryOp true .addr { ty := Ty.int, lvalue := true, width := some 3 } = none := by decide
@@ -187,21 +172,14 @@ theorem ptr_assign_accept_sound_partial (t : Ty) (e : Operand) (hx : voidVsFuncP
 example : voidVsFuncPtr (.ptr {} Ty.int) (.ptr { c := true } Ty.int) = false ∧
     ptrAssignOk (.ptr {} Ty.int) { ty := .ptr { c := true } Ty.int } = false := by decide
 
-/-- **Function calls**, 6.5.2.2p1-2 -/
-def call_accept_sound_full : Prop :=
-  ∀ (f o : Operand) (n : Nat), callType f n = some o → Constraints.call f n = true
+/-- **Function calls**, 6.5.2.2p1-2: the callee is a pointer to function and the number of arguments
+agrees with the prototype (at least the named parameters for a variadic one; full strength since
+fix e3588ce). -/
+theorem call_accept_sound (f o : Operand) (n : Nat) (h : callType f n = some o) : Constraints.call f n = true :=
+  call_sound f o n h
 
-/-- `int g(int, int, ...); g(1)`: "not enough arguments" is only diagnosed for non-variadic callees.
-Reproduced on the binary (gcc, clang: "too few arguments"). -/
-theorem call_accept_sound_counterexample : ¬ call_accept_sound_full := by
-  intro h
-  have := h { ty := .ptr {} (.func {} Ty.int [Ty.int, Ty.int] true) } _ 1 rfl
-  exact absurd this (by decide)
-
-theorem call_accept_sound_partial (f o : Operand) (n : Nat) (hx : variadicTooFew f n = false)
-    (h : callType f n = some o) : Constraints.call f n = true :=
-  call_sound f o n hx h
-
+example : callType { ty := .ptr {} (.func {} Ty.int [Ty.int, Ty.int] true) } 1 = none := by decide   -- fix e3588ce
+example : (callType { ty := .ptr {} (.func {} Ty.int [Ty.int] true) } 3).isSome = true := by decide
 example : callType { ty := .ptr {} (.func {} Ty.int [Ty.int] false) } 2 = none ∧
     callType { ty := Ty.int } 0 = none := by decide
 
@@ -242,6 +220,20 @@ most one association, exactly one without `default`) -/
 theorem generic_accept_sound (want : Ty) (assocs : List (Ty × Qual)) (d : Bool) (r : Option Nat)
     (h : genericSelect want assocs d = some r) : Constraints.generic want assocs d :=
   generic_sound want assocs d r h
+
+/-- the other half of 6.5.1.1p2, "No two generic associations in the same generic selection shall
+specify compatible types", at full strength -/
+def generic_distinct_assocs_full : Prop :=
+  ∀ (want : Ty) (assocs : List (Ty × Qual)) (d : Bool) (r : Option Nat), genericSelect want assocs d = some r →
+    assocs.Pairwise (fun a b => ¬ (compatible a.1 b.1 = true ∧ a.2 = b.2))
+
+/-- `_Generic(1L, int: 1, T: 2, default: 0)` with `typedef int T;` is accepted: cproc compares the
+associations with the controlling type only, never with each other (checked nowhere). -/
+theorem generic_distinct_assocs_counterexample : ¬ generic_distinct_assocs_full := by
+  intro h
+  have := h Ty.long [(Ty.int, {}), (Ty.int, {})] true none (by decide)
+  rw [List.pairwise_cons] at this
+  exact this.1 _ List.mem_cons_self ⟨by decide, rfl⟩
 
 example : genericSelect Ty.int [(Ty.int, {}), (Ty.int, {})] true = none ∧
     genericSelect Ty.int [(Ty.long, {})] false = none := by decide
